@@ -6,7 +6,8 @@ VERIF = os.path.dirname(os.path.dirname(os.path.abspath(__file__)))
 LEAN = os.path.join(VERIF, "lean")
 HARNESS = os.path.join(VERIF, "harness")
 REPO = os.environ.get("VERIF_REPO", "/repo")
-ORACLE = os.path.join(LEAN, ".lake", "build", "bin", "oracle")
+ORACLE_DIR = os.path.join(LEAN, ".lake", "build", "bin")
+ORACLE = [None]
 STD_AXIOMS = {"propext", "Classical.choice", "Quot.sound"}
 NCPU = min(16, os.cpu_count() or 4)
 
@@ -42,7 +43,7 @@ def sh(cmd, cwd=None, env=None, timeout=3600, inp=None):
 
 # ---------------------------------------------------------------- builds
 
-def build_harness(outdir, race=False):
+def build_harness(outdir, race=False, prop=None):
     """go build the harness against REPO's working tree; returns (path|None, log)."""
     binp = os.path.join(outdir, "drive")
     if os.path.exists(binp):
@@ -58,7 +59,8 @@ def build_harness(outdir, race=False):
         new = re.sub(r"replace github.com/kercylan98/minotaur => \S+", want, txt)
         if new != txt:
             open(gomod, "w").write(new)
-        cmd = ["go", "build", "-tags", "verif", "-o", binp]
+        tags = "verif" if not prop else "verif,only,only_" + prop.lower()
+        cmd = ["go", "build", "-tags", tags, "-o", binp]
         if race:
             cmd.insert(2, "-race")
         cmd.append("./cmd/drive")
@@ -226,7 +228,7 @@ def run_impl(drive, suite, ops_lines, timeout, extra_env=None):
 
 
 def run_oracle(suite, ops_lines, timeout=1800):
-    p = subprocess.run([ORACLE, suite], input="\n".join(ops_lines) + "\n", stdout=subprocess.PIPE,
+    p = subprocess.run([ORACLE[0], suite], input="\n".join(ops_lines) + "\n", stdout=subprocess.PIPE,
                        stderr=subprocess.PIPE, timeout=timeout, text=True, errors="replace")
     got = p.stdout.split("\n")
     if got and got[-1] == "":
@@ -271,6 +273,8 @@ class Suite:
         r = {"ops": ops, "impl": run_impl(self.drive, self.name, ops, self.timeout, self.env)}
         if self.model:
             r["model"] = run_oracle(self.model, ops)
+        if self.spec:
+            r["spec"] = run_oracle(self.spec, ops)
         if self.judge:
             r["judge"] = run_oracle(self.judge, self.judge_lines(ops, r["impl"]))
         return r
@@ -344,7 +348,11 @@ class Suite:
                 if o in ("panic", "fatal", "hang", "skipped") or o.startswith("err"):
                     res["outkinds"][o] = res["outkinds"].get(o, 0) + 1
             bad_kind = None
-            if ref is not None:
+            if "spec" in r:
+                for k in range(s, e):
+                    if not lines_agree(r["impl"][k], r["spec"][k]):
+                        bad_kind = ("spec", k - s); break
+            if bad_kind is None and ref is not None:
                 for k in range(s, e):
                     if not lines_agree(r["impl"][k], ref[k]):
                         bad_kind = ("model", k - s); break
@@ -365,10 +373,16 @@ class Suite:
 # ---------------------------------------------------------------- findings
 
 def load_findings():
+    out = []
     p = os.path.join(VERIF, "known_findings.json")
-    if not os.path.exists(p):
-        return []
-    return json.load(open(p)).get("findings", [])
+    if os.path.exists(p):
+        out += json.load(open(p)).get("findings", [])
+    d = os.path.join(VERIF, "findings.d")
+    if os.path.isdir(d):
+        for fn in sorted(os.listdir(d)):
+            if fn.endswith(".json"):
+                out += json.load(open(os.path.join(d, fn))).get("findings", [])
+    return out
 
 
 def match_finding(findings, prop, suite, op_line, case_ops, extra=""):
@@ -411,10 +425,11 @@ def replay(path):
     conf = load_conf(prop)
     scfg = [s for s in conf["suites"] if s["name"] == suite][0]
     outdir = os.path.join(VERIF, "out", prop); os.makedirs(outdir, exist_ok=True)
-    drive, blog = build_harness(outdir)
+    drive, blog = build_harness(outdir, prop=prop)
     if not drive:
         log(blog); return 2
-    ok, out = build_lean(["oracle"])
+    ORACLE[0] = os.path.join(ORACLE_DIR, "oracle-" + prop.lower())
+    ok, out = build_lean(["oracle-" + prop.lower()])
     S = Suite(prop, scfg, drive, "quick", 0, outdir)
     ops = rec["ops"]
     impl = run_impl(drive, suite, ops, 120, S.env)
@@ -466,11 +481,12 @@ def main(argv):
         violations.append((path, concrete, broken))
 
     # ---- 1. builds
-    drive, blog = build_harness(outdir, race=conf.get("race", False) and tier == "thorough")
+    ORACLE[0] = os.path.join(ORACLE_DIR, "oracle-" + prop.lower())
+    drive, blog = build_harness(outdir, race=conf.get("race", False) and tier == "thorough", prop=prop)
     if not drive:
         log(blog[-3000:])
         violation(None, "corr:harness-build (the harness no longer compiles against /repo)", {"log": blog[-3000:]}, False)
-    lean_targets = ["oracle"] + conf.get("lean_modules", [])
+    lean_targets = ["oracle-" + prop.lower()] + conf.get("lean_modules", [])
     ok, lout = build_lean(lean_targets)
     obligations, discharged, thm_axioms = 0, 0, {}
     if not ok:
@@ -536,7 +552,7 @@ def main(argv):
                 d = ds[0]
                 kind = d["kind"]
                 concrete, against = False, kind
-                if kind == "judge":
+                if kind in ("judge", "spec"):
                     concrete = True
                 elif S.spec:
                     try:
